@@ -13,6 +13,35 @@ RULE = ("stopping / dead-shape / example games x operation sequences of 2-4 solv
         "Non-trivial = the pruned solve actually removes or rescales at least one transition.")
 
 
+class WatchedList(list):
+    """a list that records every in-place modification (even one that is undone later)"""
+    log = []
+
+    def _hit(self, what):
+        WatchedList.log.append(what)
+
+
+def _mk(name):
+    def f(self, *a, **k):
+        self._hit(name)
+        return getattr(list, name)(self, *a, **k)
+    return f
+
+
+for _n in ("append", "extend", "insert", "remove", "pop", "clear", "sort", "reverse", "__setitem__", "__delitem__",
+           "__iadd__", "__imul__"):
+    setattr(WatchedList, _n, _mk(_n))
+
+
+def watched(desc):
+    d = dict(desc)
+    d["transition_list"] = WatchedList(WatchedList(r) if isinstance(r, list) else r for r in desc["transition_list"])
+    d["rewards"] = WatchedList(desc["rewards"])
+    d["players"] = WatchedList(desc["players"])
+    d["final_states"] = WatchedList(desc["final_states"])
+    return d
+
+
 def canon_res(o):
     if o["outcome"] != "ok":
         return (o["outcome"],)
@@ -23,11 +52,14 @@ def canon_res(o):
 def check_case(ctx, g, ops, model=None):
     """ops: list of (prune, reuse_object_index or None)"""
     tad = repo("tad")
-    shared = gen.desc(g)                      # the caller's description, never copied below
-    before = copy.deepcopy(shared)
+    plain = gen.desc(g)
+    before = copy.deepcopy(plain)
+    shared = watched(plain)                   # the caller's description, never copied below
+    WatchedList.log = []
     objs = []
     results = {}
     trace = []
+    results_seq = []
     pruned_something = False
     for prune, reuse in ops:
         if reuse is not None and reuse < len(objs) and objs[reuse][0] == prune:
@@ -38,13 +70,17 @@ def check_case(ctx, g, ops, model=None):
             objs.append((prune, sg))
         o = impl.solve_inplace(shared, prune, limit=5.0, sg=sg)
         trace.append({"prune": prune, "reuse": reuse, "outcome": o["outcome"]})
+        results_seq.append({k: o.get(k) for k in ("outcome", "res")})
         if o["outcome"] == "Timeout":
             ctx.count("timeout")
             return
         if prune and o.get("nodes"):
             pruned_something |= any(len(a) != len(b) for a, b in zip(o["nodes"], before["transition_list"]))
         inp = {"game": before, "ops": [list(x) for x in ops]}
-        if shared != before:
+        if WatchedList.log:
+            ctx.violation("in-place-edit-of-callers-lists", inp, {"after_op": len(trace), "operations": WatchedList.log[:8], "trace": trace})
+            break
+        if {k: (list(v) if isinstance(v, list) else v) for k, v in shared.items()} != before:
             diffs = [k for k in before if shared.get(k) != before[k]]
             ctx.violation("description-changed", inp,
                           {"after_op": len(trace), "changed": diffs,
@@ -57,11 +93,28 @@ def check_case(ctx, g, ops, model=None):
         results.setdefault(prune, c)
     ctx.case({"game": before, "ops": [list(x) for x in ops]}, pruned_something)
     ctx.count("ops=" + "".join("P" if p else "U" for p, _ in ops))
-    if model is not None:
-        from wire import game_payload
-        model.add("solve_post", dict(game_payload(g), prune=True),
-                  expect={"post": shared["transition_list"], "before": before["transition_list"]},
-                  inp={"game": before}, suite="corr.alias")
+    if model is not None and len(trace) == len(ops):
+        import wire
+        outs = [r for r in results_seq]
+        model.add("solve_seq", dict(wire.game_payload(g), modes=[bool(p) for p, _ in ops]),
+                  expect={"post": shared["transition_list"], "outs": outs},
+                  inp={"game": before, "ops": [list(x) for x in ops]}, suite="corr.alias", cmp=cmp_seq)
+
+
+def cmp_seq(expect, r):
+    import wire
+    if r.get("outcome") != "ok":
+        return f"model outcome {r.get('outcome')}"
+    d = wire.nodes_diff(expect["post"], r["post"])
+    if d:
+        return "caller's transition lists after the sequence: " + d
+    if len(expect["outs"]) != len(r["results"]):
+        return "number of results differs"
+    for k, (o, m) in enumerate(zip(expect["outs"], r["results"])):
+        d = wire.cmp_solve(o, m)
+        if d:
+            return f"solve #{k + 1}: {d}"
+    return None
 
 
 def op_sequences(rng, quick):
